@@ -19,6 +19,7 @@ import (
 	"crypto"
 	"fmt"
 	"net"
+	"os"
 	"strconv"
 	"strings"
 	"sync"
@@ -234,6 +235,9 @@ func exec(line string) zv.Out {
 		case "hk":
 			return execHook(f)
 		}
+		if o, ok := execSelOps(f); ok {
+			return o
+		}
 	}
 	if len(f) != 11 || f[1] != "hs" {
 		return zv.Out{Go: "bad-op"}
@@ -300,6 +304,10 @@ type combo struct {
 }
 
 func gen(g *zv.Gen) {
+	if os.Getenv("ZV_C27_ONLY") == "sel" { // development aid: only the function-level streams of select.go
+		genSelect(g)
+		return
+	}
 	tlsrig.GetPKI()
 	var combos []combo
 	for _, v := range []int{10, 11, 12} {
@@ -320,6 +328,7 @@ func gen(g *zv.Gen) {
 	genNames(g)
 	genResume(g)
 	genHooks(g, combos)
+	genSelect(g)
 	reps := g.N(1, 6)
 	for rep := 0; rep < reps; rep++ {
 		for ci, c := range combos {
@@ -363,5 +372,5 @@ func gen(g *zv.Gen) {
 
 func init() {
 	zv.Register(&zv.Prop{ID: "C27", Topic: "c27", Gen: gen, Exec: exec, Timeout: 20 * time.Second,
-		Rule: "one real zcrypto client/server handshake per scenario: (TLS 1.0-1.3 x RSA / ECDHE-RSA / ECDHE-ECDSA / DHE / TLS 1.3 x rsa, ecdsa P-256/P-384, ed25519 keys) x server scenario (trusted, untrusted root, expired via Config.Time or an expired leaf, wrong name, wrong private key, corrupted ServerKeyExchange signature) x InsecureSkipVerify x ClientAuthType 0..4 x client scenario (none, trusted, untrusted, expired, wrong private key, corrupted CertificateVerify); a case is one distinct scenario line; name: Config.ServerName written in 20 forms (DNS name, upper case, one / two trailing dots, sub-domain, unrelated name, IPv4, bracketed / dotted / v4-mapped IPv4, IPv6 short / long / bracketed, link-local with and without zone, bracketed zone, unlisted addresses, empty) x 5 certificates chaining to the configured roots that list the DNS name / the addresses / both / neither / a wildcard, TLS 1.2 and 1.3 (thorough: 1.0-1.3), verification on (and off for one certificate); T3 from the actual strings and certificate contents: completes only if listed under the most liberal reading, plain spellings that are listed must be accepted; res: two client connections through ONE ClientSessionCache (keyed, or one slot ignoring the key) to one server (ticket / PSK), the first made by a configuration that is InsecureSkipVerify with the right / other / no roots, or verifying with other roots / both roots / another ServerName / a later clock, the second by a verifying configuration (right roots, other roots, clock past a short-lived leaf, other name) or a non-verifying one, x server certificate (trusted, other root, other name, both names, short-lived), TLS 1.0-1.3: core product always, the rest sampled (thorough: full product); T3: the second connection completes only if the Go standard library verifies the server's actual chain for THAT configuration's roots, clock and name, and is not refused if it does; sres: two connections to servers sharing a ticket key whose ClientAuthType / ClientCAs / clock differ (first non-verifying 0-2, second verifying 3-4 as core; all 15x15 pairs sampled) x client certificate (none, trusted, other root, short-lived): the second server completes only with a certificate that verifies for ITS configuration; hk: the hs matrix again with the verification-related Config hooks installed - client VerifyPeerCertificate / VerifyConnection (returning nil; returning an error), client certificate via GetClientCertificate or via Config.Certificates; server VerifyPeerCertificate / VerifyConnection (nil; error), GetCertificate returning the configured certificate, GetConfigForClient returning the real configuration from behind a lax shell (NoClientCert, no ClientCAs) or returning nil; ClientCAs = roots / nil / empty pool - as: every server scenario x InsecureSkipVerify x {both client callbacks + one more hook set in rotation (thorough: all 10)}, every ClientAuthType x client scenario x {both server callbacks + one more of 13 hook sets}, ClientAuthType 1-4 x {none, trusted, untrusted, wrong key} x ClientCAs nil / empty, rejecting callbacks on either side, both sides bad with everything installed; T2: outcome = the model's decision, in which permissive hooks have no influence (= the outcome without hooks), and the client callbacks run exactly when normal verification did not fail; T3: all hs sentences with hooks installed, no callback invoked for a peer failing normal verification or without verified chains while verifying, each installed callback consulted exactly once by a completed handshake, a callback error aborts; res / sres lines with a trailing hooks field: the core two-connection scenarios (and a sample of the rest) with permissive hooks on both sides, same outcome and DidResume demanded"})
+		Rule: "one real zcrypto client/server handshake per scenario: (TLS 1.0-1.3 x RSA / ECDHE-RSA / ECDHE-ECDSA / DHE / TLS 1.3 x rsa, ecdsa P-256/P-384, ed25519 keys) x server scenario (trusted, untrusted root, expired via Config.Time or an expired leaf, wrong name, wrong private key, corrupted ServerKeyExchange signature) x InsecureSkipVerify x ClientAuthType 0..4 x client scenario (none, trusted, untrusted, expired, wrong private key, corrupted CertificateVerify); a case is one distinct scenario line; name: Config.ServerName written in 20 forms (DNS name, upper case, one / two trailing dots, sub-domain, unrelated name, IPv4, bracketed / dotted / v4-mapped IPv4, IPv6 short / long / bracketed, link-local with and without zone, bracketed zone, unlisted addresses, empty) x 5 certificates chaining to the configured roots that list the DNS name / the addresses / both / neither / a wildcard, TLS 1.2 and 1.3 (thorough: 1.0-1.3), verification on (and off for one certificate); T3 from the actual strings and certificate contents: completes only if listed under the most liberal reading, plain spellings that are listed must be accepted; res: two client connections through ONE ClientSessionCache (keyed, or one slot ignoring the key) to one server (ticket / PSK), the first made by a configuration that is InsecureSkipVerify with the right / other / no roots, or verifying with other roots / both roots / another ServerName / a later clock, the second by a verifying configuration (right roots, other roots, clock past a short-lived leaf, other name) or a non-verifying one, x server certificate (trusted, other root, other name, both names, short-lived), TLS 1.0-1.3: core product always, the rest sampled (thorough: full product); T3: the second connection completes only if the Go standard library verifies the server's actual chain for THAT configuration's roots, clock and name, and is not refused if it does; sres: two connections to servers sharing a ticket key whose ClientAuthType / ClientCAs / clock differ (first non-verifying 0-2, second verifying 3-4 as core; all 15x15 pairs sampled) x client certificate (none, trusted, other root, short-lived): the second server completes only with a certificate that verifies for ITS configuration; hk: the hs matrix again with the verification-related Config hooks installed - client VerifyPeerCertificate / VerifyConnection (returning nil; returning an error), client certificate via GetClientCertificate or via Config.Certificates; server VerifyPeerCertificate / VerifyConnection (nil; error), GetCertificate returning the configured certificate, GetConfigForClient returning the real configuration from behind a lax shell (NoClientCert, no ClientCAs) or returning nil; ClientCAs = roots / nil / empty pool - as: every server scenario x InsecureSkipVerify x {both client callbacks + one more hook set in rotation (thorough: all 10)}, every ClientAuthType x client scenario x {both server callbacks + one more of 13 hook sets}, ClientAuthType 1-4 x {none, trusted, untrusted, wrong key} x ClientCAs nil / empty, rejecting callbacks on either side, both sides bad with everything installed; T2: outcome = the model's decision, in which permissive hooks have no influence (= the outcome without hooks), and the client callbacks run exactly when normal verification did not fail; T3: all hs sentences with hooks installed, no callback invoked for a peer failing normal verification or without verified chains while verifying, each installed callback consulted exactly once by a completed handshake, a callback error aborts; res / sres lines with a trailing hooks field: the core two-connection scenarios (and a sample of the rest) with permissive hooks on both sides, same outcome and DidResume demanded; function-level streams (select.go, no handshake, the real function through tls/zv_c27_verif.go against its Lean model): pol - processCertsFromClient on ClientAuthType 0..7 x 10 certificate kinds (none, valid, untrusted root, expired, EKU serverAuth only, no EKU, EKU any, unparseable, valid + extra element, valid + unparseable element) x VerifyPeerCertificate absent / nil / error; ssfc / sss - signatureSchemesForCertificate / selectSignatureScheme on TLS 1.0-1.3 x 25 keys (RSA moduli at every boundary of rsaSignatureSchemes, ECDSA P-224/256/384/521, Ed25519, unknown signer, non-signer) x SupportedSignatureAlgorithms x peer lists (fixed and random); cri - certificateRequestInfoFromMsg on 9 certificate-type lists x with / without signature_algorithms x algorithm lists; gcc - getClientCertificate on TLS 1.0/1.2/1.3 x scheme lists x acceptable-CA lists x random lists of 0-3 chains drawn from 16 (key, SupportedSignatureAlgorithms, issuers per chain element incl. unparseable ones); sel - Config.getCertificate on 12 certificate sets x 21 ServerNames x GetCertificate absent / nil / certificate / error x NameToCertificate nil / built by BuildNameToCertificate (map dumped) / 7 explicit maps, SupportsCertificate bits observed from the real method"})
 }
